@@ -127,13 +127,13 @@ theorem sector_rotation (xs : List Rat) (c : Rat) : sector (xs.map (· + c)) = s
 theorem ffiAng_rotation (xs : List Rat) (c : Rat) : ffiAng (xs.map (· + c)) = ffiAng xs :=
   SV.Spec.FlipFlop.ffiAng_rotate xs c
 
-/- STRETCH (not proved; carried by the correspondence check and the oracle on every run, which evaluate the model, the
-   implementation and BOTH spec definitions on every generated angle set):
+/- The former stretch statements
 
-   theorem sector_model_eq_spec_stmt (xs : List Rat) (hne : xs ≠ []) :
-       sectorNp false (xs.map fin) = fin (sector xs)
+     sector_model_eq_spec_stmt (xs : List Rat) (hne : xs ≠ []) : sectorNp false (xs.map fin) = fin (sector xs)
+     sector_eq_gap_stmt (xs : List Rat) (hne : xs ≠ []) : sector xs = SV.Spec.FlipFlop.sectorGap xs
 
-   theorem sector_eq_gap_stmt (xs : List Rat) (hne : xs ≠ []) : sector xs = SV.Spec.FlipFlop.sectorGap xs
--/
+   are PROVED in Props/C18Sector.lean (`sector_model_eq_spec`, `sector_eq_gap`), together with the unconditional
+   closed form and the rotation invariance of the MODEL of the directional index (`ffi_angular_closed_form`,
+   `ffi_angular_rotation`). -/
 
 end SV.Props.C18
